@@ -3,6 +3,8 @@ import OrsoVerif.Lemmas.DictSession
 import OrsoVerif.Lemmas.DictViews
 import OrsoVerif.Lemmas.DictSchema
 import OrsoVerif.Lemmas.DictJson
+import OrsoVerif.Model.DictIter
+import OrsoVerif.Model.DictClass
 /-!
 # C02 — Dictionary records map onto rows by field name
 
@@ -899,5 +901,125 @@ example : ((run 0 (fun _ => 7) [] [.ctx, .frame [[("a", 1), ("b", 2)]], .append 
 example : dictsTo 0 1 ([.append 0 [("b", 5)] [] 0, .ctx, .rows ["b"] [], .append 2 [("a", 4)] [] 0, .append 1 [("b", 6)] [] 0] : List (Op Nat))
     = [[("b", 5)], [("a", 4)]] := by decide
 example : Inv ([⟨["a"], [[1]], false⟩] : List (Frame Nat)) := by intro f hf; simp at hf; subst hf; rfl
+
+/-! ### Round 5: how the constructor walks the caller's sequence, the size guard reached from `append`, row classes as objects -/
+
+/-- Clause "exactly one row per dictionary … for all sequences of dictionaries given to the constructor": whatever
+kind of object holds the sequence — a container, a one-shot iterator, a record reader whose iterations share one
+cursor — the source expression of the working tree (`frameSourceSegs`) yields every record exactly once, in order. -/
+theorem frame_source_each_once {δ : Type} (kind : DictIter.Kind) (items : List δ) (h : items ≠ []) :
+    DictIter.consumed frameSourceSegs kind items = some items := by
+  cases items with
+  | nil => exact absurd rfl h
+  | cons first rest =>
+    cases kind <;>
+      simp [DictIter.consumed, DictIter.consume, DictIter.drainSeg, frameSourceSegs]
+
+/-- … hence `DataFrame(<any such object>)` as written is the specification `frameOfDicts` of the records. -/
+theorem frameOfDictsIter_eq (null : α) (ofKey : String → α) (kind : DictIter.Kind)
+    (items : List (List (String × α))) :
+    DictIter.frameOfDictsIter null ofKey kind items = frameOfDicts null items := by
+  cases items with
+  | nil => rfl
+  | cons first rest =>
+    have hc := frame_source_each_once kind (first :: rest) (by simp)
+    simp only [DictIter.frameOfDictsIter, hc]
+    rw [← frameOfDictsCode_eq null ofKey (first :: rest)]
+    simp only [DictIter.frameFrom, frameOfDictsCode, show frameSourceIncludesFirst = true from rfl, if_true]
+
+/-- the failure mode: a source that walks a record reader a second time loses the first record -/
+example : DictIter.consumed (fun selfIter => if selfIter then [.first, .rest] else [.again]) .reader [1, 2, 3] = some [2, 3] := by
+  decide
+
+/-- Clause "by appending a dictionary", at the size guard `append` reaches through `nbytes` → `as_bytes`: a record whose
+packed values do not exceed the stated limit (16 MiB) passes the guard of the working tree (`recordRefused` with the
+module's `MAXIMUM_RECORD_SIZE` / `HEADER_SIZE`) and `append` stores the specification row. -/
+theorem append_within_limit_stored (null : α) (ofKey : String → α) (names : List String) (rows : List (List α))
+    (d : List (String × α)) (packed : Nat) (h : packed ≤ 16 * 1024 * 1024) :
+    recordRefused (Int.ofNat packed) = false
+    ∧ DictIter.appendSized null ofKey (createClass names frameDictsTuplesOnly) rows d (Int.ofNat packed)
+        = some (some (append null names rows d))
+    ∧ DictIter.appendSized null ofKey (createClass names frameRowsTuplesOnly) rows d (Int.ofNat packed)
+        = some (some (append null names rows d)) := by
+  have hr : recordRefused (Int.ofNat packed) = false := by
+    have h' : (Int.ofNat packed) ≤ 16 * 1024 * 1024 := by
+      have : ((packed : Nat) : Int) ≤ ((16 * 1024 * 1024 : Nat) : Int) := Int.ofNat_le.mpr h
+      simpa using this
+    generalize Int.ofNat packed = n at h' ⊢
+    set_option linter.unusedSimpArgs false in
+    simp [recordRefused, maximumRecordSize, headerSize]
+    omega
+  obtain ⟨h1, h2⟩ := appendCode_eq null ofKey names rows d
+  refine ⟨hr, ?_, ?_⟩ <;> (simp only [DictIter.appendSized, h1, h2, hr]; simp)
+
+
+open DictClass in
+/-- one step keeps the invariant when the refresh makes a new class -/
+theorem class_step_inv (null : α) (st : DictClass.St α) (op : DictClass.Op α) (h : DictClass.Inv null st) :
+    DictClass.Inv null (DictClass.step true null st op) := by
+  obtain ⟨hf, hr⟩ := h
+  cases op with
+  | edit f => exact ⟨hf, hr⟩
+  | append d =>
+    simp only [DictClass.step, DictClass.refresh]
+    by_cases he : st.heap.getD st.factory [] = st.names
+    · simp only [he, if_true]
+      refine ⟨hf, ?_⟩
+      intro r hm
+      rcases List.mem_append.mp hm with hm | hm
+      · exact hr r hm
+      · simp only [List.mem_singleton] at hm
+        subst hm
+        refine ⟨?_, rfl⟩
+        simp only [List.getD_eq_getElem?_getD] at he
+        rw [List.getElem?_eq_getElem hf] at he ⊢
+        simpa using he
+    · simp only [he, if_false, if_true]
+      refine ⟨by simp, ?_⟩
+      intro r hm
+      rcases List.mem_append.mp hm with hm | hm
+      · obtain ⟨h1, h2⟩ := hr r hm
+        refine ⟨?_, h2⟩
+        obtain ⟨hlt, _⟩ := List.getElem?_eq_some_iff.mp h1
+        show (st.heap ++ [st.names])[r.cls]? = some r.built
+        rw [List.getElem?_append_left hlt]
+        exact h1
+      · simp only [List.mem_singleton] at hm
+        subst hm
+        simp
+
+/-- … over every sequence of edits of the schema object and appends -/
+theorem class_run_inv (null : α) (ops : List (DictClass.Op α)) (st : DictClass.St α) (h : DictClass.Inv null st) :
+    DictClass.Inv null (DictClass.run true null st ops) := by
+  induction ops generalizing st with
+  | nil => exact h
+  | cons op ops ih => exact ih _ (class_step_inv null st op h)
+
+/-- Clauses 9–13 for the rows built EARLIER: after any sequence of edits of the shared schema object and appends, every
+row of the frame still reads off its class the names its schema had when it was built (`keys()`, and with them `get`,
+`as_map`, `as_dict`, `as_json`), and holds the cells extracted by those names — because the refresh of the working tree
+makes a new class (`appendRefreshMakesNewClass`) instead of writing onto the one the earlier rows are instances of. -/
+theorem earlier_rows_keep_their_association (null : α) (names : List String) (ops : List (DictClass.Op α)) :
+    ∀ r ∈ (DictClass.run Gen.SchemaCode.appendRefreshMakesNewClass null (DictClass.init names) ops).rows,
+      DictClass.fieldsOf (DictClass.run Gen.SchemaCode.appendRefreshMakesNewClass null (DictClass.init names) ops) r = r.built
+      ∧ r.cells = extract null r.built r.src
+      ∧ asMapExpr (DictClass.fieldsOf (DictClass.run Gen.SchemaCode.appendRefreshMakesNewClass null (DictClass.init names) ops) r) r.cells
+          = asMap r.built (extract null r.built r.src) := by
+  rw [show Gen.SchemaCode.appendRefreshMakesNewClass = true from rfl]
+  have hi : DictClass.Inv null (DictClass.init names : DictClass.St α) := ⟨by simp [DictClass.init], by simp [DictClass.init]⟩
+  obtain ⟨_, hr⟩ := class_run_inv null ops _ hi
+  intro r hm
+  obtain ⟨h1, h2⟩ := hr r hm
+  have hf : DictClass.fieldsOf (DictClass.run true null (DictClass.init names) ops) r = r.built := by
+    simp [DictClass.fieldsOf, List.getD_eq_getElem?_getD, h1]
+  refine ⟨hf, h2, ?_⟩
+  rw [hf, h2, (views_code_eq r.built (extract null r.built r.src)).1]
+
+/-- the failure mode: new names written onto the existing class relabel the row built before the edit -/
+example :
+    let st := DictClass.run false 0 (DictClass.init ["a", "b"])
+      [.append [("a", 1), ("b", 2)], .edit (fun _ => ["b", "a"]), .append [("a", 3), ("b", 4)]]
+    st.rows.map (fun r => (DictClass.fieldsOf st r, r.built, r.cells))
+      = [(["b", "a"], ["a", "b"], [1, 2]), (["b", "a"], ["b", "a"], [4, 3])] := by decide
 
 end C02
